@@ -42,3 +42,28 @@ Example ex_relocate :
              ex_actors ex_grains []%Z in
   length handled = 9 /\ length failed = 2.
 Proof. vm_compute. split; reflexivity. Qed.
+
+(* ---- the completion bookkeeping of one worker, step by step (relocationWorker.finish and
+   relocator.abortRelocation): DeletePeerState, then endRelocation.  A duplicate NodeLeft handled by
+   the leader reads the snapshot (GetPeerState), then asks beginRelocation: it starts a second
+   relocation exactly when the snapshot is still readable and no job is registered. *)
+Record fin_state := mkFin { f_registered : bool; f_snapshot : bool }.
+Inductive fin_step := FDeleteSnapshot | FEndRelocation.
+Definition fin_apply (s : fin_state) (x : fin_step) : fin_state :=
+  match x with
+  | FDeleteSnapshot => mkFin (f_registered s) false
+  | FEndRelocation => mkFin false (f_snapshot s)
+  end.
+Definition dup_accepted (s : fin_state) : bool := f_snapshot s && negb (f_registered s).
+Fixpoint fin_prefixes (s : fin_state) (l : list fin_step) : list fin_state :=
+  s :: match l with [] => [] | x :: r => fin_prefixes (fin_apply s x) r end.
+
+(* the order the code uses: at no point of the completion can a duplicate slip in *)
+Lemma finish_order_safe :
+  forallb (fun s => negb (dup_accepted s)) (fin_prefixes (mkFin true true) [FDeleteSnapshot; FEndRelocation]) = true.
+Proof. reflexivity. Qed.
+
+(* the opposite order opens a window *)
+Lemma finish_order_reversed_unsafe :
+  existsb dup_accepted (fin_prefixes (mkFin true true) [FEndRelocation; FDeleteSnapshot]) = true.
+Proof. reflexivity. Qed.
